@@ -126,7 +126,39 @@ fn sched_text(s: &[Step]) -> String {
     s.iter().map(|x| match x { Step::Chunk(n) => format!("c{n}"), Step::Interrupt => "I".to_string() }).collect::<Vec<_>>().join(" ")
 }
 
+fn parse_sched(t: &str) -> Vec<Step> {
+    t.split_whitespace()
+        .filter_map(|w| if w == "I" { Some(Step::Interrupt) } else { w.strip_prefix('c').and_then(|n| n.parse::<usize>().ok()).map(Step::Chunk) })
+        .collect()
+}
+
+fn replay(ctx: &Ctx, path: &str) -> i32 {
+    let mut col = Collector::new();
+    let v: serde_json::Value = std::fs::read_to_string(path).ok().and_then(|t| serde_json::from_str(&t).ok()).unwrap_or(json!({}));
+    let Some(bytes) = v["input"]["frame_hex"].as_str().and_then(vref::bits::unhex) else {
+        println!("INCONCLUSIVE property=C19 the replay file holds no frame");
+        return 2;
+    };
+    let sched = parse_sched(v["input"]["schedule"].as_str().unwrap_or(""));
+    let dc = match v["input"]["default_chunk"].as_u64() { Some(0) | None => usize::MAX, Some(n) => n as usize };
+    let plen = v["input"]["prefix_len"].as_u64().unwrap_or(0) as usize;
+    let base = outcome_bytes(&bytes);
+    let mut stream = vec![0x5Au8; plen];
+    stream.extend_from_slice(&bytes);
+    let (o, t) = outcome_reader_at(&stream, plen, sched.clone(), dc);
+    println!("replay frame={} schedule=[{}] from_bytes={base:?} from_reader={o:?} calls={}", hex(&bytes), sched_text(&sched), t.len());
+    if o != base {
+        col.add(Finding { prop: "C19".into(), sig: "C19|reader_differs_from_slice|replay".into(), detail: format!("from_reader {o:?} vs from_bytes {base:?}; trace {:?}", &t[..t.len().min(40)]), input: v["input"].clone() });
+    }
+    col.sample(v["input"].clone());
+    let info = ctx.info("fault_enumeration", "replay of one recorded schedule", &[], 1);
+    crate::collect::finish(&info, &col, 1, 2, false, json!({"replay_of": path}))
+}
+
 pub fn run(ctx: &Ctx) -> i32 {
+    if let Some(p) = ctx.flag("--replay") {
+        return replay(ctx, &p);
+    }
     let classes = gen::all_classes();
     let reps = ctx.q(2u64, 24);
     let rand_sched = ctx.q(24u64, 160);
